@@ -1680,6 +1680,7 @@ def _update(
     *,
     keys_to_update: Sequence[NestedKey] | None = None,
     non_blocking: bool = False,
+    is_leaf: Callable[[Type], bool] | None = None,
     update_batch_size: bool = False,
     ignore_lock: bool = False,
 ):
@@ -1698,6 +1699,7 @@ def _update(
             inplace=inplace,
             keys_to_update=keys_to_update,
             non_blocking=non_blocking,
+            is_leaf=is_leaf,
             update_batch_size=update_batch_size,
             ignore_lock=ignore_lock,
         )
@@ -1710,6 +1712,7 @@ def _update(
         inplace=inplace,
         keys_to_update=keys_to_update,
         non_blocking=non_blocking,
+        is_leaf=is_leaf,
         update_batch_size=update_batch_size,
         ignore_lock=ignore_lock,
     )
